@@ -2,10 +2,7 @@
 From SGV Require Import Base.Tactics Smpi.Priv.
 Local Open Scope Z_scope.
 
-Section WithInit.
-Variable init : mem.
-
-Definition Inv (st : state) (hist : list obs) (c : Z) (ok : bool) : Prop :=
+Definition Inv (init : mem) (st : state) (hist : list obs) (c : Z) (ok : bool) : Prop :=
   cur st = c /\ (forall r a, store st r a = own_last hist r a init) /\ (ok = true -> loaded st = Some c).
 
 Lemma switch_seg_props : forall st r,
@@ -18,10 +15,10 @@ Proof.
   - cbn. auto.
 Qed.
 
-Lemma run_from_spec : forall t st hist c ok,
-  Inv st hist c ok -> disc_from ok t = true -> run_from st t = spec_from init hist c t.
+Lemma run_from_spec : forall init t st hist c ok,
+  Inv init st hist c ok -> disc_from ok t = true -> run_from st t = spec_from init hist c t.
 Proof.
-  induction t as [|e t IH]; intros st hist c ok HI HD; [reflexivity|].
+  intros init. induction t as [|e t IH]; intros st hist c ok HI HD; [reflexivity|].
   destruct HI as [Hc [Hs Hl]].
   destruct e as [r|r|p|a v|a]; cbn [run_from step spec_from disc_from] in *.
   - (* ESwitch *)
@@ -52,13 +49,12 @@ Proof.
     split; [exact Hc|]. split; [exact Hs|intros _; exact Hl].
 Qed.
 
-Theorem read_own_last_write : forall t, disciplined t = true -> run_impl init t = run_spec init t.
+Theorem read_own_last_write : forall init t, disciplined t = true -> run_impl init t = run_spec init t.
 Proof.
-  intros t HD. unfold run_impl, run_spec. apply (run_from_spec t _ [] (-1) false); [|exact HD].
+  intros init t HD. unfold run_impl, run_spec. apply (run_from_spec init t _ [] (-1) false); [|exact HD].
   split; [reflexivity|]. split; [reflexivity|discriminate].
 Qed.
 
-End WithInit.
 
 (** other ranks' writes are invisible: the value r reads does not depend on what any other rank wrote *)
 Lemma own_last_other : forall hist r' a' v r a init, r' <> r -> own_last ((r', a', v) :: hist) r a init = own_last hist r a init.
